@@ -32,7 +32,7 @@ CLANG_FLAGS = ['-std=c++14', '-O1', '-fno-exceptions', '-fno-rtti', '-fno-vector
                '-fno-unroll-loops', '-fno-inline', '-D' + GUARD, '-I' + os.path.join(REPO, 'include'), '-I' + RT, '-I' + HDIR,
                '-S', '-emit-llvm', '-w']
 GXX_FLAGS = ['-std=c++14', '-DVRT_REAL_STREAMS', '-D' + GUARD, '-I' + os.path.join(REPO, 'include'), '-I' + RT, '-I' + HDIR, '-w']
-CBMC_BASE = ['--object-bits', '12', '--unwinding-assertions', '--slice-formula', '--drop-unused-functions', '--pointer-overflow-check',
+CBMC_BASE = ['--object-bits', '12', '--unwinding-assertions', '--drop-unused-functions', '--pointer-overflow-check',
              '--undefined-shift-check', '--json-ui', '--verbosity', '4']
 JOBS = int(os.environ.get('VERIF_JOBS', '16'))
 _print_lock = threading.Lock()
@@ -146,6 +146,14 @@ class TU:
         try:
             mod_text = open(ll).read()
             csrc, info = ir2c.translate(mod_text, want_info=True)
+            self.shared_globals = []
+            if self.tu_opts.get('guard') == '1':
+                # C19: every access to a mutable, non-thread_local global that belongs to library code becomes an assertion;
+                # the solver decides whether any execution of the harness reaches one.
+                mg = info['mutable_globals']; dem = demangle(mg)
+                self.shared_globals = [(m, d) for m, d in zip(mg, dem) if 'nop::' in d]
+                if self.shared_globals:
+                    csrc, info = ir2c.translate(mod_text, want_info=True, guard_globals=[m for m, d in self.shared_globals])
         except ir2c.Unsupported as e:
             raise Broken('translator: unsupported construct in %s: %s' % (self.tag, e))
         open(c, 'w').write(csrc)
@@ -469,6 +477,24 @@ class Check:
         for desc, fl in order:
             if budget == 0: break
             budget -= 1
+            if desc.startswith('shared-global:'):
+                # confirmation against the real build: the same symbol is a process-wide (non-TLS) data object in the native binary
+                sym = desc.split(':', 1)[1].strip()
+                try:
+                    ex = tu.native('cpp')
+                    nm = subprocess.run(['nm', '-C', ex], stdout=subprocess.PIPE).stdout.decode()
+                except Exception as e:
+                    nm = ''
+                dem = dict((ir2c.cident(m), d) for m, d in getattr(tu, 'shared_globals', []))
+                dname = dem.get(sym, sym)
+                hits = [l for l in nm.split('\n') if re.search(r' [bBdDuVv] ', l) and dname.split('(')[0][:60] in l]
+                what = {'harness': q.h, 'tu': tu.tag, 'cbmc': desc, 'cbmc_property': fl['property'], 'tape': [], 'native_rc': None,
+                        'native_failed_asserts': [], 'sanitizer': None, 'native_frame': dname, 'nm': hits[:3]}
+                if hits:
+                    self.record_violation(tu, q, [fl], [], 'symbol', 'process-wide mutable object reachable from library code: %s\n%s' % (dname, '\n'.join(hits[:3])), what)
+                else:
+                    self.broken.append('%s/%s: solver reaches shared global %s but no such data symbol in the native binary' % (tu.tag, q.h, dname))
+                continue
             tape = q.tape_for(fl['property'])
             if tape is None:
                 self.broken.append('%s/%s: failing property %s (%s) but no trace could be produced' % (tu.tag, q.h, fl['property'], desc)); continue
@@ -613,6 +639,11 @@ def replay(path):
     w = json.load(open(path))
     tu = TU(w['property'], os.path.basename(w['src']), w.get('defs', ()))
     os.makedirs(tu.dir, exist_ok=True)
+    if w.get('how') == 'symbol':
+        tu.build(); exe = tu.native('cpp')
+        nm = subprocess.run(['nm', '-C', exe], stdout=subprocess.PIPE).stdout.decode()
+        hits = [l for l in nm.split('\n') if re.search(r' [bBdDuVv] ', l) and w.get('native_frame', '?').split('(')[0][:60] in l]
+        print('\n'.join(hits)); return 1 if hits else 0
     if w.get('how') == 'compile':
         rc, out, err, _, _ = run([CLANG] + CLANG_FLAGS + ['-D' + d for d in tu.defs] + [tu.src, '-o', '/dev/null'])
         print(err[-3000:]); print('compile rc=%s' % rc)
